@@ -67,6 +67,34 @@ def run(ck):
                     continue
                 cx, ox = run_one(dc, 'dt64')
                 compare(ck, 'C15.data', test, dc, cb, ob, cx, ox)
+            # an infinite entry ('i'): every float carrier can hold it; it must be treated alike whatever the container
+            if p == pats[0]:
+                pinf = p.replace('m', 'i', 1)
+                p_keep, p = p, pinf
+                try:
+                    ci0, oi0 = run_one('ndarray', 'dt64')
+                    for dc in ('list_none', 'tuple_nan', 'series', 'masked_nan'):
+                        cx, ox = run_one(dc, 'dt64')
+                        compare(ck, 'C15.data', test, dc + '+inf', ci0, oi0, cx, ox)
+                finally:
+                    p = p_keep
+            # parameter spans: lists and tuples are interchangeable, in either order of the two bounds where the test accepts both orders
+            if p == pats[0]:
+                args0, kw0 = build('ndarray', 'dt64', p)
+                for rev in (False, True):
+                    if rev and test not in ('gross_range_test', 'climatology_test'):
+                        continue
+                    outs = []
+                    for to in (list, tuple):
+                        args, kw = build('ndarray', 'dt64', p)
+                        kw2 = {k: respell(v, to, rev) for k, v in kw.items()}
+                        if kw2 == kw and not rev and outs:
+                            continue
+                        c = Case(test, args, kw2, n=len(p), pat={}, meta={'class': f'spans-{to.__name__}'},
+                                 label=f'{test}({p!r}; spans as {to.__name__}{" (descending)" if rev else ""}: { {k: show_kw(v) for k, v in kw2.items() if k not in ("inp", "tinp", "zinp")} })')
+                        outs.append((c, run_case(ck, c, allow_refused=True)))
+                    if len(outs) == 2:
+                        compare(ck, 'C15.spans', test, 'span-tuple' + ('-descending' if rev else ''), outs[0][0], outs[0][1], outs[1][0], outs[1][1])
             # integer-typed arrays (no missing values possible): the data must be converted to float before any arithmetic
             pi = 'p' * len(p)
             ci, oi = run_one('ndarray_int', 'dt64') if False else (None, None)
@@ -86,6 +114,23 @@ def run(ck):
                 for tc in TIME_CARRIERS[1:]:
                     cx, ox = run_one('list_none', tc)
                     compare(ck, 'C15.time', test, tc, cb, ob, cx, ox)
+    # irregular sampling on whole minutes, so that coarse datetime64 units can carry the same instants
+    tmin = [0, 60, 180, 240, 360, 420]
+    coarse = {
+        'flat_line_test': dict(suspect_threshold=120, fail_threshold=240, tolerance=Fr(1)),
+        'attenuated_signal_test': dict(suspect_threshold=Fr(2), fail_threshold=Fr(1), test_period=180, check_type='range', min_period=90),
+        'rate_of_change_test': dict(threshold=Fr(1, 60)),
+    }
+    for test, kw in coarse.items():
+        for n in (5, 6) if ck.tier == 'thorough' else (5,):
+            def run_t(tc):
+                c = Case(test, [data_input('inp', 'p' * n, 'ndarray'), time_input('tinp', tmin[:n], tc)], dict(kw), n=n, pat={}, meta={'class': f'minutes/{tc}'},
+                         label=f'{test}({"p" * n!r}; times {tmin[:n]} s; time={tc})')
+                return c, run_case(ck, c, allow_refused=True)
+            cb, ob = run_t('dt64')
+            for tc in ['dt64_m'] + TIME_CARRIERS[1:]:
+                cx, ox = run_t(tc)
+                compare(ck, 'C15.time', test, tc + ':irregular-minutes', cb, ob, cx, ox)
     # pressure_increasing_test: present values only (the test documents no missing handling) + None vs NaN
     from ..cases import El as _El
     for vals in ([0, 1, 2], [2, 1, 0], [0, 2, 1, 3]):
@@ -116,6 +161,30 @@ def run(ck):
     compare(ck, 'C15.data', 'pressure_increasing_test', 'list_none', outs[1][0], outs[1][1], outs[0][0], outs[0][1])
     ck.floor('C15.data', 60)
     ck.floor('C15.time', 40)
+    ck.floor('C15.spans', 7)
+
+
+def is_span(v):
+    return isinstance(v, (list, tuple)) and len(v) in (2, 4) and all(x is None or isinstance(x, (int, Fr)) or type(x).__name__ == 'TS' for x in v)
+
+
+def respell(v, to, rev):
+    if is_span(v):
+        v = list(v)
+        if rev and len(v) == 2 and None not in v and not any(type(x).__name__ == 'TS' for x in v):
+            v = v[::-1]
+        return to(v)
+    if isinstance(v, list) and all(isinstance(x, dict) for x in v):
+        return [{k: respell(x, to, rev) for k, x in d.items()} for d in v]
+    return v
+
+
+def show_kw(v):
+    if isinstance(v, (list, tuple)):
+        return type(v)(show_kw(x) for x in v)
+    if isinstance(v, dict):
+        return {k: show_kw(x) for k, x in v.items()}
+    return str(v)
 
 
 def compare(ck, rule, test, carrier, cb, ob, cx, ox):
